@@ -146,7 +146,7 @@ pub fn ext_routes<T>(routes: &mut Vec<RouteRef<T>>, other: Vec<RouteRef<T>>)
 {
     broadcast use axiom_iter_seq_vec;
     let ghost a = routes@; let ghost b = other@;
-    /* verbatim: routes.extend(matcher.match_request(request)); | routes.extend(self.any_host.match_request(request)); | routes.extend(routes_stored.clone()); | routes.extend(Trace::get_routes_from_traces(&trace.children)); */
+    /* verbatim: routes.extend(matcher.match_request(request)); | routes.extend(self.any_host.match_request(request)); | routes.extend(routes_stored.clone()); | rules.extend(matcher.match_request(request)); | routes.extend(Trace::get_routes_from_traces(&trace.children)); */
     routes.extend(other);
     proof { lemma_ms_add(a, b); }
 }
@@ -203,6 +203,174 @@ impl<T> HostMatcher<T> {
     //@| outline `routes.extend(self.any_host.match_request(request));` => `ext_routes(&mut routes, self.any_host.match_request(request));`
 }
 //@@ unrename IpMatcher
+
+// ================================================================ header layer (C01)
+use std::collections::BTreeSet;
+//@@ item src/router/request_matcher/header.rs :: enum ValueCondition
+//@| opt keepderive:PartialEq,Eq,PartialOrd,Ord
+//@@ item src/router/request_matcher/header.rs :: struct HeaderCondition
+//@| opt keepderive:PartialEq,Eq,PartialOrd,Ord
+// R1: derived Clone re-stated structurally (a clone is an equal value; uses: a String is determined by its characters)
+impl Clone for ValueCondition {
+    fn clone(&self) -> (r: Self) ensures r == *self {
+        proof { axiom_string_ext(); }
+        match self {
+            ValueCondition::IsDefined => ValueCondition::IsDefined,
+            ValueCondition::IsNotDefined => ValueCondition::IsNotDefined,
+            ValueCondition::IsEquals(s) => ValueCondition::IsEquals(s.clone()),
+            ValueCondition::IsNotEqualTo(s) => ValueCondition::IsNotEqualTo(s.clone()),
+            ValueCondition::Contains(s) => ValueCondition::Contains(s.clone()),
+            ValueCondition::DoesNotContain(s) => ValueCondition::DoesNotContain(s.clone()),
+            ValueCondition::EndsWith(s) => ValueCondition::EndsWith(s.clone()),
+            ValueCondition::StartsWith(s) => ValueCondition::StartsWith(s.clone()),
+            ValueCondition::MatchRegex(s) => ValueCondition::MatchRegex(s.clone()),
+        }
+    }
+}
+impl Clone for HeaderCondition {
+    fn clone(&self) -> (r: Self) ensures r == *self {
+        proof { axiom_string_ext(); }
+        HeaderCondition { header_name: self.header_name.clone(), condition: self.condition.clone() }
+    }
+}
+// ASSUMED (trusted, listed): the derived Ord of these key types is a total order consistent with Eq (BTreeMap key model)
+#[verifier::external_body] pub broadcast proof fn axiom_hc_key() ensures #[trigger] vstd::std_specs::btree::key_obeys_cmp_spec::<HeaderCondition>() {}
+#[verifier::external_body] pub broadcast proof fn axiom_hcset_key() ensures #[trigger] vstd::std_specs::btree::key_obeys_cmp_spec::<BTreeSet<HeaderCondition>>() {}
+#[verifier::external_body] #[verifier::accept_recursive_types(T)] pub struct SubDt<T> { h: std::marker::PhantomData<T> }
+impl<T> SubDt<T> {
+    pub uninterp spec fn answer(&self, request: Request) -> Multiset<RouteRef<T>>;
+    #[verifier::external_body]
+    pub fn match_request(&self, request: &Request) -> (r: Vec<RouteRef<T>>) ensures ms_of(r@) == self.answer(*request) { unimplemented!() }
+}
+//@@ rename DateTimeMatcher SubDt
+//@@ item src/router/request_matcher/header.rs :: struct HeaderMatcher
+//@@ unrename DateTimeMatcher
+// one header condition holds for the request (ValueCondition::match_value: below)
+pub uninterp spec fn spec_match_value(c: ValueCondition, request: Request, name: Seq<char>) -> bool;
+pub open spec fn cond_true(c: HeaderCondition, request: Request) -> bool { spec_match_value(c.condition, request, c.header_name@) }
+// statement: a group contributes iff ALL its conditions hold
+pub open spec fn group_true(cs: Set<HeaderCondition>, request: Request) -> bool { forall|c: HeaderCondition| cs.contains(c) ==> cond_true(c, request) }
+impl ValueCondition {
+    //@@ fn src/router/request_matcher/header.rs :: impl ValueCondition / fn match_value -> r
+    //@| opt external_body
+    //@| opt stub
+    //@| ensures r == spec_match_value(*self, *request, name@),
+}
+pub proof fn lemma_cover_sound<T>(r: Seq<&T>, st: Set<T>)
+    requires r.no_duplicates(), st.finite(), r.len() == st.len(), forall|k: T| st.contains(k) ==> r.contains(&k),
+    ensures forall|i: int| 0 <= i < r.len() ==> st.contains(*#[trigger] r[i]),
+{
+    let d = r.map_values(|x: &T| *x);
+    assert forall|i: int, j: int| 0 <= i < d.len() && 0 <= j < d.len() && i != j implies d[i] != d[j] by { if d[i] == d[j] { assert(r[i] == r[j]); } }
+    d.unique_seq_to_set();
+    let ds = d.to_set();
+    assert forall|k: T| st.contains(k) implies ds.contains(k) by {
+        assert(r.contains(&k));
+        let i = choose|i: int| 0 <= i < r.len() && r[i] == &k;
+        assert(d[i] == k);
+    }
+    vstd::set_lib::lemma_len_subset(st, ds);
+    vstd::set_lib::lemma_subset_equality(st, ds);
+    assert forall|i: int| 0 <= i < r.len() implies st.contains(*#[trigger] r[i]) by { assert(d[i] == *r[i]); assert(ds.contains(d[i])); }
+}
+pub type GroupItem<'a, T> = (&'a BTreeSet<HeaderCondition>, &'a SubDt<T>);
+// x is contributed by one of the first n groups (in iteration order) all of whose conditions hold
+pub open spec fn contrib<T>(rem: Seq<GroupItem<T>>, n: int, request: Request, x: RouteRef<T>) -> bool {
+    exists|i: int| 0 <= i < n && group_true((*#[trigger] rem[i].0)@, request) && (*rem[i].1).answer(request).count(x) > 0
+}
+pub proof fn lemma_contrib_false<T>(rem: Seq<GroupItem<T>>, n: int, request: Request)
+    requires 1 <= n <= rem.len(), !group_true((*rem[n - 1].0)@, request),
+    ensures forall|x: RouteRef<T>| #[trigger] contrib(rem, n, request, x) == contrib(rem, n - 1, request, x),
+{
+    assert forall|x: RouteRef<T>| #[trigger] contrib(rem, n, request, x) == contrib(rem, n - 1, request, x) by {
+        if contrib(rem, n, request, x) {
+            let i = choose|i: int| 0 <= i < n && group_true((*#[trigger] rem[i].0)@, request) && (*rem[i].1).answer(request).count(x) > 0;
+            assert(i < n - 1);
+        }
+        if contrib(rem, n - 1, request, x) {
+            let i = choose|i: int| 0 <= i < n - 1 && group_true((*#[trigger] rem[i].0)@, request) && (*rem[i].1).answer(request).count(x) > 0;
+            assert(group_true((*rem[i].0)@, request));
+        }
+    }
+}
+pub proof fn lemma_contrib_true<T>(rem: Seq<GroupItem<T>>, n: int, request: Request)
+    requires 1 <= n <= rem.len(), group_true((*rem[n - 1].0)@, request),
+    ensures forall|x: RouteRef<T>| #[trigger] contrib(rem, n, request, x) == (contrib(rem, n - 1, request, x) || (*rem[n - 1].1).answer(request).count(x) > 0),
+{
+    assert forall|x: RouteRef<T>| #[trigger] contrib(rem, n, request, x) == (contrib(rem, n - 1, request, x) || (*rem[n - 1].1).answer(request).count(x) > 0) by {
+        if contrib(rem, n, request, x) {
+            let i = choose|i: int| 0 <= i < n && group_true((*#[trigger] rem[i].0)@, request) && (*rem[i].1).answer(request).count(x) > 0;
+            if i < n - 1 { assert(group_true((*rem[i].0)@, request)); }
+        }
+        if contrib(rem, n - 1, request, x) {
+            let i = choose|i: int| 0 <= i < n - 1 && group_true((*#[trigger] rem[i].0)@, request) && (*rem[i].1).answer(request).count(x) > 0;
+            assert(group_true((*rem[i].0)@, request));
+        }
+        if (*rem[n - 1].1).answer(request).count(x) > 0 { assert(group_true((*rem[n - 1].0)@, request)); }
+    }
+}
+impl<T> HeaderMatcher<T> {
+    // membership-exact (a route is returned iff it comes from the no-condition bucket or from a group ALL of whose conditions hold);
+    // multiplicities are not stated at this layer
+    //@@ fn src/router/request_matcher/header.rs :: impl <T>HeaderMatcher<T> / fn match_request -> r
+    //@| opt r5:0
+    //@| opt r6:0
+    //@| opt r5:1
+    //@| opt r6i:1
+    //@| attr #[verifier::loop_isolation(false)]
+    //@| ensures forall|x: RouteRef<T>| r@.contains(x) <==> (self.any_header.answer(*request).count(x) > 0
+    //@|     || exists|cs: BTreeSet<HeaderCondition>| self.condition_groups@.contains_key(cs) && group_true(cs@, *request) && #[trigger] self.condition_groups@[cs].answer(*request).count(x) > 0),
+    //@| entry broadcast use vstd::seq_lib::group_to_multiset_ensures; broadcast use vstd::std_specs::btree::group_btree_axioms; broadcast use axiom_hc_key; broadcast use axiom_hcset_key;
+    //@| loopbefore 0: let ghost any0 = rules@; let ghost gm = self.condition_groups@;
+    //@|     proof { assert(forall|x: RouteRef<T>| any0.contains(x) <==> self.any_header.answer(*request).count(x) > 0); }
+    //@| loop 0: invariant 0 <= vf_it0_idx <= vf_it0_rem0.len(), vf_it0.remaining() == vf_it0_rem0.skip(vf_it0_idx), vf_it0_rem0.len() == gm.len(),
+    //@|         forall|c: HeaderCondition| execute_conditions@.contains_key(c) ==> #[trigger] execute_conditions@[c] == cond_true(c, *request),
+    //@|         forall|x: RouteRef<T>| #[trigger] rules@.contains(x) <==> (any0.contains(x) || contrib(vf_it0_rem0, vf_it0_idx, *request, x)),
+    //@|     decreases gm.len() - vf_it0_idx,
+    //@| loophead 0: let ghost rules0 = rules@; proof { assert(conditions == vf_it0_rem0[vf_it0_idx - 1].0 && matcher == vf_it0_rem0[vf_it0_idx - 1].1); }
+    //@| loopbefore 1: let ghost cset = conditions@;
+    //@| loop 1: invariant 0 <= vf_it1_idx <= vf_it1_rem0.len(), vf_it1.remaining() == vf_it1_rem0.skip(vf_it1_idx), vf_it1_rem0.len() == cset.len(), rules@ == rules0,
+    //@|         forall|c: HeaderCondition| execute_conditions@.contains_key(c) ==> #[trigger] execute_conditions@[c] == cond_true(c, *request),
+    //@|         forall|i: int| 0 <= i < vf_it1_idx ==> cond_true(*#[trigger] vf_it1_rem0[i], *request),
+    //@|     decreases cset.len() - vf_it1_idx,
+    //@| loophead 1: proof { assert(condition == vf_it1_rem0[vf_it1_idx - 1]); lemma_cover_sound(vf_it1_rem0, cset); assert(cset.contains(*condition)); }
+    //@| before `continue 'group;`#0: proof { assert(!cond_true(*condition, *request)); assert(!group_true(cset, *request)); lemma_contrib_false(vf_it0_rem0, vf_it0_idx, *request); }
+    //@| before `continue 'group;`#1: proof { assert(!cond_true(*condition, *request)); assert(!group_true(cset, *request)); lemma_contrib_false(vf_it0_rem0, vf_it0_idx, *request); }
+    //@| loopend 1: proof {
+    //@|     assert forall|c: HeaderCondition| cset.contains(c) implies cond_true(c, *request) by {
+    //@|         assert(vf_it1_rem0.contains(&c));
+    //@|         let i = choose|i: int| 0 <= i < vf_it1_rem0.len() && vf_it1_rem0[i] == &c;
+    //@|         assert(cond_true(*vf_it1_rem0[i], *request));
+    //@|     }
+    //@|     assert(group_true(cset, *request));
+    //@|     lemma_contrib_true(vf_it0_rem0, vf_it0_idx, *request);
+    //@| }
+    //@| looptail 0: proof {
+    //@|     let other = rules@.subrange(rules0.len() as int, rules@.len() as int);
+    //@|     assert(rules@ =~= rules0 + other);
+    //@|     assert forall|x: RouteRef<T>| #[trigger] rules@.contains(x) <==> (rules0.contains(x) || matcher.answer(*request).count(x) > 0) by {
+    //@|         lemma_ms_add(rules0, other);
+    //@|         assert(ms_of(rules@).count(x) == ms_of(rules0).count(x) + ms_of(other).count(x));
+    //@|     }
+    //@| }
+    //@| loopend 0: proof {
+    //@|     assert forall|x: RouteRef<T>| contrib(vf_it0_rem0, vf_it0_rem0.len() as int, *request, x) <==> (exists|cs: BTreeSet<HeaderCondition>| gm.contains_key(cs) && group_true(cs@, *request) && #[trigger] gm[cs].answer(*request).count(x) > 0) by {
+    //@|         if contrib(vf_it0_rem0, vf_it0_rem0.len() as int, *request, x) {
+    //@|             let i = choose|i: int| 0 <= i < vf_it0_rem0.len() && group_true((*#[trigger] vf_it0_rem0[i].0)@, *request) && (*vf_it0_rem0[i].1).answer(*request).count(x) > 0;
+    //@|             let cs = *vf_it0_rem0[i].0;
+    //@|             assert(gm.contains_key(cs) && gm[cs] == *vf_it0_rem0[i].1);
+    //@|             assert(gm[cs].answer(*request).count(x) > 0);
+    //@|         }
+    //@|         if exists|cs: BTreeSet<HeaderCondition>| gm.contains_key(cs) && group_true(cs@, *request) && #[trigger] gm[cs].answer(*request).count(x) > 0 {
+    //@|             let cs = choose|cs: BTreeSet<HeaderCondition>| gm.contains_key(cs) && group_true(cs@, *request) && #[trigger] gm[cs].answer(*request).count(x) > 0;
+    //@|             let i = choose|i: int| 0 <= i < vf_it0_rem0.len() && *vf_it0_rem0[i].0 == cs;
+    //@|             assert(gm[*vf_it0_rem0[i].0] == *vf_it0_rem0[i].1);
+    //@|             assert(group_true((*vf_it0_rem0[i].0)@, *request));
+    //@|         }
+    //@|     }
+    //@| }
+    //@| outline `rules.extend(matcher.match_request(request));` => `ext_routes(&mut rules, matcher.match_request(request));`
+}
 
 // ================================================================ traces (C17)
 #[verifier::external_body] pub struct HeaderValueCondition { x: u8 }
